@@ -31,6 +31,11 @@ package checker_test
 //      LoadBlob per content ID) -> every file read without an error has exactly
 //      the content that was backed up, and a walk that met no error at all
 //      yields exactly the original set of paths.
+//  (3) the real restorer (file content through LoadBlobsFromPack / the pack
+//      streamer and its fallbacks), driven as cmd_restore.go drives it: a
+//      in a restore of a still loadable snapshot that does not fail as a whole,
+//      every file that is missing or differs from what was backed up must be
+//      covered by an error reported for it or for a parent directory.
 //  No panic.
 // Non-trivial: the site lies in a file a snapshot depends on (all but deleted
 // snapshot files and, in the dup variant, the pack holding only the duplicate).
@@ -44,6 +49,7 @@ import (
 	"hash"
 	"io"
 	"os"
+	"path/filepath"
 	"runtime"
 	"runtime/debug"
 	"sort"
@@ -58,6 +64,7 @@ import (
 	"github.com/restic/restic/internal/data"
 	"github.com/restic/restic/internal/repository"
 	"github.com/restic/restic/internal/restic"
+	"github.com/restic/restic/internal/restorer"
 	rtest "github.com/restic/restic/internal/test"
 	"github.com/restic/restic/internal/verifshim/vh"
 )
@@ -208,13 +215,14 @@ type verifC03File struct {
 }
 
 type verifC03Fixture struct {
-	name      string
-	files     []verifC03File // sorted by role
-	byHandle  map[backend.Handle][]byte
-	blobs     map[restic.BlobHandle][]byte         // pristine plaintext of every indexed blob
-	snapshots map[restic.ID]map[string][]byte      // snapshot -> path -> content
-	snapIDs   []restic.ID                          // in backup order
-	unrefPack map[backend.Handle]bool              // files no snapshot depends on (dup variant: extra pack + its index)
+	name       string
+	files      []verifC03File // sorted by role
+	byHandle   map[backend.Handle][]byte
+	blobs      map[restic.BlobHandle][]byte    // pristine plaintext of every indexed blob
+	snapshots  map[restic.ID]map[string][]byte // snapshot -> path -> content
+	snapIDs    []restic.ID                     // in backup order
+	unrefPack  map[backend.Handle]bool         // files no snapshot depends on (dup variant: extra pack + its index)
+	restoreDir string                          // scratch directory for oracle (2c); "" = restorer not run
 }
 
 func verifC03SaveDir(t testing.TB, ctx context.Context, up restic.BlobSaver, dir verifC03Dir, prefix string, truth map[string][]byte) restic.ID {
@@ -362,12 +370,14 @@ func verifC03Build(t testing.TB, name string, version uint, scale int, dup bool)
 // ---------------------------------------------------------------- one state
 
 type verifC03State struct {
-	opened   bool
-	reported bool
-	errors   []string
-	fails    []string // oracle (2) failures, "kind: text"
-	readOK   int
-	readErr  int
+	opened                bool
+	reported              bool
+	errors                []string
+	fails                 []string // oracle (2) failures, "kind: text"
+	readOK                int
+	readErr               int
+	restoreOK, restoreErr int
+	restoredFiles         int
 }
 
 func verifC03Walk(ctx context.Context, repo *repository.Repository, tree restic.ID, prefix string, out map[string][]byte, depth int) (clean bool) {
@@ -523,6 +533,61 @@ func verifC03Run(f *verifC03Fixture, be backend.Backend, pristine bool) (st veri
 			st.readErr++
 		}
 	}
+	// (2c) the real restorer (it reads file content through LoadBlobsFromPack / the pack streamer with its
+	// own fallbacks, not through LoadBlob): driven as cmd_restore.go does - per-file errors are counted and
+	// the restore goes on; `restore` fails (non-zero exit) iff an error was counted or RestoreTo failed.
+	// A restore that reports nothing must have produced exactly the backed-up files.
+	if f.restoreDir != "" {
+		for _, id := range f.snapIDs {
+			sn, err := data.LoadSnapshot(ctx, repo, id)
+			if err != nil || sn.Tree == nil {
+				continue
+			}
+			target := filepath.Join(f.restoreDir, fmt.Sprintf("t%d", verifC03SnapIdx(f, id)))
+			_ = os.RemoveAll(target)
+			var locs []string
+			res := restorer.NewRestorer(repo, sn, restorer.Options{})
+			res.Error = func(location string, _ error) error { locs = append(locs, location); return nil }
+			_, rerr := res.RestoreTo(ctx, target)
+			if rerr != nil {
+				// the whole restore failed: nothing is claimed about what was written so far
+				st.restoreErr++
+				_ = os.RemoveAll(target)
+				continue
+			}
+			if len(locs) > 0 {
+				st.restoreErr++
+			} else {
+				st.restoreOK++
+			}
+			// "fail for the affected data": a file that is missing or differs must be covered by an error
+			// reported for it or for one of its parent directories
+			covered := func(p string) bool {
+				for _, l := range locs {
+					l = strings.TrimSuffix(filepath.ToSlash(l), "/")
+					if l == "" || l == p || strings.HasPrefix(p, l+"/") {
+						return true
+					}
+				}
+				return false
+			}
+			for p, w := range f.snapshots[id] {
+				got, err := os.ReadFile(filepath.Join(target, p))
+				if (err == nil && bytes.Equal(got, w)) || covered(p) {
+					if err == nil && bytes.Equal(got, w) {
+						st.restoredFiles++
+					}
+					continue
+				}
+				if err != nil {
+					st.fails = append(st.fails, fmt.Sprintf("restore-missing: restore of snapshot %d did not restore %q (%v) and reported no error for it (errors were reported for %v)", verifC03SnapIdx(f, id), p, err, locs))
+				} else {
+					st.fails = append(st.fails, fmt.Sprintf("restore-wrong-bytes: restore of snapshot %d wrote %q with %d bytes differing from the %d bytes backed up and reported no error for it (errors were reported for %v)", verifC03SnapIdx(f, id), p, len(got), len(w), locs))
+				}
+			}
+			_ = os.RemoveAll(target)
+		}
+	}
 	return st
 }
 
@@ -601,6 +666,10 @@ func TestVerif_C03(t *testing.T) {
 		}
 		// the set of files and their sizes must be known to enumerate case keys: build once per shard
 		f := get()
+		f.restoreDir = filepath.Join(r.Scratch, "restore-"+v.name)
+		if st := verifC03Run(f, &verifC03BE{files: f.byHandle}, false); st.restoreOK != len(f.snapIDs) || len(st.fails) > 0 {
+			t.Fatalf("fixture %s: restore of the pristine repository: ok=%d fails=%v", v.name, st.restoreOK, st.fails)
+		}
 		evalSite := func(ck string, sites []verifC03Site, label string) {
 			be := &verifC03BE{files: f.byHandle}
 			needReport := true
@@ -657,7 +726,10 @@ func TestVerif_C03(t *testing.T) {
 			if depends {
 				r.NontrivialByConstruction(1)
 			}
-			r.Outcome(fmt.Sprintf("%s|opened=%v|reported=%v|readErr=%v", f.files[sites[0].file].h.Type, st.opened, st.reported, st.readErr > 0))
+			r.Outcome(fmt.Sprintf("%s|opened=%v|reported=%v|readErr=%v|restoreFailed=%v", f.files[sites[0].file].h.Type, st.opened, st.reported, st.readErr > 0, st.restoreErr > 0))
+			r.Count("restores_without_error_compared", int64(st.restoreOK))
+			r.Count("restores_that_reported_errors", int64(st.restoreErr))
+			r.Count("restored_files_compared_equal", int64(st.restoredFiles))
 			if needReport && st.opened && !st.reported {
 				r.Violationf(ck, "C03|"+key+"|unreported", map[string]any{"variant": v.name, "sites": names},
 					"%s: the repository opens and check --read-data reports no error although a stored file was damaged (%s) [%s]", label, strings.Join(names, "+"), key)
